@@ -32,6 +32,8 @@ func runC02(c *Ctx) {
 	c.Rule("C02.R6", "reset ping-pong clients are closed, not pooled", 6)
 	c.Rule("C02.R7", "timer callbacks: reuse off -> cleaned check -> generation check -> CAS -> handler", 2)
 	c.Rule("C02.R8", "stream buffers recycled only when reuse is enabled and no side was reset", 2)
+	c.Rule("C02.R9", "every decoded frame gets its own stream-level context (no reuse after a dropped frame)", 2)
+	defer c02FreshContext(c)
 	c.NotDecided = append(c.NotDecided, "behaviour under concrete interleavings (only the structure that makes misdelivery impossible under lock/atomic semantics)", "HTTP/2 stream-id correlation (x/net fork)", "id counter wrap-around collisions with still-pending ids")
 	c.Assumptions = append(c.Assumptions, "sync.Mutex / sync/atomic semantics", "the read loop of a connection is single-threaded (one Dispatch at a time per connection)")
 
@@ -387,4 +389,47 @@ func timerClosureChain(c *Ctx, rule string) {
 // sameObj: the two values denote the same object: identical SSA value, or loads of the same (structurally equal) address.
 func sameObj(a, b ssa.Value) bool {
 	return a == b || sameAddrIdx(a, b)
+}
+
+// c02FreshContext (R9): every decoded frame gets its own stream-level context.
+// Decoders keep the frame model in the per-stream buffer context and only overwrite the parts present in the new frame
+// (bolt sets Content only when contentLen > 0). If the context of a frame that was dropped (late reply, unknown id) is
+// reused for the next frame, that frame inherits the other exchange's body. Clause: on every path from handleFrame back
+// to the next Decode the context manager is advanced (ctxManager.Next()), and the context passed to Decode is the one
+// obtained from ctxManager.Get() in the same iteration.
+func c02FreshContext(c *Ctx) {
+	fn := c.M("pkg/stream/xprotocol", "streamConn", "Dispatch")
+	if fn == nil {
+		c.Unresolved("C02.R9", "(*streamConn).Dispatch")
+		return
+	}
+	fk := funcKey(fn)
+	dec := callsIn(fn, false, func(cc *ssa.CallCommon) bool { return cc.IsInvoke() && cc.Method.Name() == "Decode" })
+	hf := callsIn(fn, false, func(cc *ssa.CallCommon) bool { return methodName(cc) == "handleFrame" })
+	nx := callsIn(fn, false, func(cc *ssa.CallCommon) bool { return methodName(cc) == "Next" })
+	get := callsIn(fn, false, func(cc *ssa.CallCommon) bool { return methodName(cc) == "Get" && strings.Contains(calleeName(cc), "ContextManager") })
+	if len(dec) != 1 || len(hf) != 1 || len(nx) < 1 {
+		c.Fail("C02.R9", fk+":shape", fn.Pos(), fmt.Sprintf("expected one Decode / one handleFrame / a Next call, found %d/%d/%d", len(dec), len(hf), len(nx)))
+		return
+	}
+	d := dec[0].Instr
+	isNext := func(in ssa.Instruction) bool {
+		for _, n := range nx {
+			if n.Instr == in {
+				return true
+			}
+		}
+		return false
+	}
+	stale := existsPath(fn, hf[0].Instr, func(in ssa.Instruction) bool { return in == d }, isNext)
+	c.Check("C02.R9", fk+":fresh-context-per-frame", hf[0].Instr.Pos(), stale == nil, "ctxManager.Next() on every path from handleFrame to the next Decode", "the stream-level context of a handled or dropped frame can be reused for the next frame: a response can be delivered with another exchange's body")
+	okGet := false
+	for _, g := range get {
+		if inLoop(g.Instr.Block()) && instrDominates(g.Instr, d) {
+			if v, ok := g.Instr.(ssa.Value); ok && len(d.(*ssa.Call).Call.Args) > 0 && d.(*ssa.Call).Call.Args[0] == v {
+				okGet = true
+			}
+		}
+	}
+	c.Check("C02.R9", fk+":decode-uses-current-context", d.Pos(), okGet, "Decode receives the context obtained from ctxManager.Get() in this iteration", "Decode is not given the context obtained in this iteration")
 }
